@@ -1,7 +1,7 @@
 (* C14 — Errors stay in documented classes; 'not submitted' means no byte was sent.
    Property theorems only; the statements are those of the named lemmas (printed by Check),
    each for ALL client states and ALL environment scripts unless it says otherwise. *)
-From MQ Require Import Session Outbound OutboundRefine ConnectProofs ClassProofs ErrTree ErrTreeProofs ErrTreeTheorems TermCheck.
+From MQ Require Import Session Outbound OutboundRefine ConnectProofs ClassProofs ErrTree ErrTreeProofs ErrTreeTheorems TermCheck TermCheckProofs.
 
 (* a result among IsDeny, ErrClosed, ErrDown, ErrMax, ErrCanceled leaves the world exactly as it was: no byte written *)
 Theorem c14_not_submitted_nothing_written : ltac:(let t := type of not_submitted_nothing_written in exact t).
@@ -112,3 +112,15 @@ Theorem c14_disconnect_close_failure_classes : ltac:(let t := type of term_model
 Proof. exact term_model_in_contract. Qed.
 Check c14_disconnect_close_failure_classes.
 Print Assumptions c14_disconnect_close_failure_classes.
+
+(* the Close/Disconnect micro-model refines the session model: whatever Session.op_disconnect returns,
+   in any state under any world, is an outcome term_model allows for that state *)
+Theorem c14_session_disconnect_in_term_model : ltac:(let t := type of session_disconnect_in_term_model in exact t).
+Proof. exact session_disconnect_in_term_model. Qed.
+Check c14_session_disconnect_in_term_model.
+Print Assumptions c14_session_disconnect_in_term_model.
+
+Theorem c14_session_close_in_term_model : ltac:(let t := type of session_close_in_term_model in exact t).
+Proof. exact session_close_in_term_model. Qed.
+Check c14_session_close_in_term_model.
+Print Assumptions c14_session_close_in_term_model.
